@@ -206,7 +206,8 @@ func checkC13(e *RunEnv) *CheckResult {
 		}
 		// 200 tracked files (the index file exceeds 4 KiB several times over) and 900 (index > 64 KiB)
 		for _, n := range []int{200, 900} {
-			cs = append(cs, Case{Base: base, BaseName: "S0", BaseSeed: seedS0(), Steps: append(hugeDirSteps(n), Write("huge/file-0003.txt", "edited, not staged\n"), Delete("huge/file-0150.txt"), Write("huge/new", "untracked\n"), Write("zz new", "untracked\n"), Run("status")), Probe: true})
+			cs = append(cs, Case{Base: base, BaseName: "S0", BaseSeed: seedS0(), Steps: append(hugeDirSteps(n), Write("huge/file-0003.txt", "edited, not staged\n"), Write("v2/data/y", "the last tracked file in walk order, edited\n"), Write("v2/data/x", "edited as well\n"), Write("v1/data/y", "edited as well\n"),
+				Write("huge/file-0100.txt", "edited, in the middle\n"), Write("huge/file-0149.txt", "edited\n"), Delete("huge/file-0150.txt"), Write("huge/new", "untracked\n"), Write("zz new", "untracked\n"), Run("status")), Probe: true})
 		}
 		sweep = x.RunCases(cs)
 	}, func(x *Explorer, cov map[string]interface{}) {
